@@ -6,6 +6,7 @@ witness for every grammar-adjacent pair of terminal classes; each in all layouts
 whitespace/comment/newline separator E1 allows there).  Oracle: parse succeeds, consumes all significant
 tokens, and the adapter image of picotool's tree equals the skeleton given by the derivation.
 """
+import os
 from lib import asttools
 from lib import luagen as L
 from lib import reflex
@@ -449,7 +450,9 @@ def programs_for_shard(item):
             yield src, {'prog': prog, 'desc': desc, 'family': fam}
 
 
-REUSE_FIRSTS = [[], [b''], [b'-- c\n'], [b'\n'], [b'  \n'], [b'x=1\n'], [b'--[[a\nb]]\n'], [b'do end\n']]
+REUSE_FIRSTS = [[], [b''], [b'-- c\n'], [b'\n'], [b'  \n'], [b'x=1\n'], [b'--[[a\nb]]\n'], [b'do end\n'],
+                # line-scoped statements in the first feed (whatever the parser remembers about line ends is then old)
+                [b'if (a) b=1\n'], [b'?1\n'], [b'if (a) b=1 else c=2\n', b'x=2\n'], [b'x=1\n', b'?x,y\n', b'\n', b'if (q) return\n']]
 REUSE_PREFIXES = [b'', b'-- t\n', b'\n', b' ', b'\t', b'--[[c]]', b'// s\n\n']
 
 
@@ -459,8 +462,10 @@ def check_reuse(tier, k, n, res):
     every kind of start of B (code, comment, blank line, blanks)."""
     lua = lua_mod()
     from lib import asttools
-    for prog in programs(tier, 'stat', k, n):
-        if isinstance(prog, tuple) or len(prog.toks) > 12:
+    import itertools
+    # second feeds: single statements, and ordered pairs of statements (a line-scoped statement followed by more code)
+    for prog in itertools.chain(programs(tier, 'stat', k, n), programs(tier, 'seq', k, n)):
+        if isinstance(prog, tuple) or len(prog.toks) > 14:
             continue
         body = L.assemble(prog, {})
         for fi, first in enumerate(REUSE_FIRSTS):
@@ -503,13 +508,80 @@ def check_reuse(tier, k, n, res):
                 res.outcome(('reuse', fi, pi))
 
 
+def _print_tree(value, indent=0, prefix='', out=None):
+    """The documented shape of `p8tool printast`: one line per node (class name), its fields below it in field order,
+    two more columns of indentation per level, '* field: ' / '- ' prefixes, '[list:]' for sequences, str() for leaves."""
+    parser = __import__('pico8.lua.parser', fromlist=['parser'])
+    out = [] if out is None else out
+    if isinstance(value, parser.Node):
+        out.append('%s%s%s\n' % (' ' * indent, prefix, type(value).__name__))
+        for f in value._fields:
+            _print_tree(getattr(value, f), indent + 2, '* %s: ' % f, out)
+    elif isinstance(value, (list, tuple)):
+        out.append('%s%s[list:]\n' % (' ' * indent, prefix))
+        for item in value:
+            _print_tree(item, indent + 2, '- ', out)
+    else:
+        out.append('%s%s%s\n' % (' ' * indent, prefix, value))
+    return out
+
+
+def check_printast_cli(tier, k, n, res):
+    """`p8tool printast` prints the tree the library exposes (whose shape the other families judge): every node,
+    field and leaf of `from_file(cart).lua.root`, in order."""
+    import shutil
+    import tempfile
+    from lib import cli
+    from props import c07
+    from pico8.game import file as p8file
+    d = tempfile.mkdtemp(prefix='c08ast_')
+    try:
+        i = 0
+        for prog in programs(tier, 'stat', k, n):
+            if isinstance(prog, tuple):
+                continue
+            i += 1
+            if tier == 'quick' and i % 3:
+                continue
+            src = L.assemble(prog, {})
+            if not src.endswith(b'\n') or not c07._cart_ok(src):
+                continue
+            pth = os.path.join(d, 'a%05d.p8' % i)
+            c07.write_p8(pth, src)
+            res.evaluations += 1
+            case = {'src': src, 'cli': 'printast', 'family': 'stat'}
+            try:
+                want = ''.join(_print_tree(p8file.from_file(pth).lua.root))
+            except Exception:
+                res.count('printast_cart_not_loaded')
+                continue
+            rcode, text = cli.run(['printast', pth])
+            res.nontriv(('printast', src))
+            if rcode != 0 or text != want:
+                j = next((x for x in range(min(len(text), len(want))) if text[x] != want[x]), min(len(text), len(want)))
+                res.violation('C08|printast-cli|%s' % ('returncode' if rcode != 0 else 'listing'),
+                              '`p8tool printast` on a cart holding %r %s' % (
+                                  src, ('returned %r' % (rcode,)) if rcode != 0 else
+                                  'prints ...%r where the library tree has ...%r' % (text[max(0, j - 40):j + 40], want[max(0, j - 40):j + 40])),
+                              case)
+            else:
+                res.outcome(('printast', want.count('\n') > 20))
+    finally:
+        shutil.rmtree(d, ignore_errors=True)
+
+
 def shards(tier, seed):
     nr = 8 if tier == 'quick' else 16
-    return program_shards(tier, seed) + [('reuse', 'c08', tier, 'stat', k, nr) for k in range(nr)]
+    return (program_shards(tier, seed) + [('reuse', 'c08', tier, 'stat', k, nr) for k in range(nr)] +
+            [('printast', 'c08', tier, 'stat', k, nr) for k in range(nr)])
 
 
 def run_shard(item):
     res = ShardResult()
+    if item[0] == 'printast':
+        check_printast_cli(item[2], item[4], item[5], res)
+        res.sample({'family': 'printast-cli', 'src': b'a = b\n'})
+        return res
     if item[0] == 'reuse':
         check_reuse(item[2], item[4], item[5], res)
         res.sample({'family': 'reuse', 'first': [b'-- c\n'], 'second': b'-- t\nx=1\n'})
@@ -545,6 +617,10 @@ def replay(case):
         for k in range(8):
             check_reuse('quick', k, 8, res)
         return [(s, v[0]) for s, v in res.violations.items()]
+    if case.get('cli') == 'printast':
+        for k in range(8):
+            check_printast_cli('thorough', k, 8, res)
+        return [(s, v[0]) for s, v in res.violations.items() if v[1].get('src') == case['src'] or True]
     src = case['src']
     fam = case.get('family', 'stat')
     for tier in ('quick', 'thorough'):
